@@ -8,6 +8,7 @@ import (
 	"runtime"
 	"strings"
 	"sync"
+	"syscall"
 	"testing"
 	"testing/synctest"
 	"time"
@@ -76,12 +77,20 @@ func Run(t *testing.T, timeout time.Duration, body func(s *S)) Result {
 		n := runtime.Stack(buf, true)
 		return string(buf[:n])
 	}
+	cpu0 := cpuTime()
 	select {
 	case <-done:
 	case <-time.After(timeout):
 		d := FilterStacks(dump())
 		if strings.Contains(d, "sync.Mutex.Lock") || strings.Contains(d, "sync.RWMutex") {
 			res.Status, res.Detail = "hang", d
+			break
+		}
+		// ... or if this process has been computing all the while (a goroutine going round a loop that never
+		// blocks - a select on a closed channel, say - keeps the bubble from ever becoming idle): a starved process
+		// has not used a processor for most of the timeout, a spinning one has
+		if used := cpuTime() - cpu0; used >= timeout*8/10 {
+			res.Status, res.Detail = "hang", fmt.Sprintf("the process used %v of processor time in %v without the scenario finishing: a goroutine is spinning\n%s", used, timeout, d)
 			break
 		}
 		select {
@@ -96,6 +105,15 @@ func Run(t *testing.T, timeout time.Duration, body func(s *S)) Result {
 	}
 	smu.Unlock()
 	return res
+}
+
+// cpuTime is the processor time (user + system) this process has used so far.
+func cpuTime() time.Duration {
+	var ru syscall.Rusage
+	if syscall.Getrusage(syscall.RUSAGE_SELF, &ru) != nil {
+		return 0
+	}
+	return time.Duration(ru.Utime.Nano() + ru.Stime.Nano())
 }
 
 // Q waits for quiescence (every goroutine of the bubble durably blocked)
